@@ -2,6 +2,8 @@ import NdnProofs.Lemmas.Lvs.Sanity
 import NdnProofs.Lemmas.Lvs.SignCycle
 import NdnProofs.Lemmas.Lvs.Sem
 import NdnProofs.Lemmas.Lvs.Example
+import NdnProofs.Lemmas.Lvs.CompileStatic
+import NdnProofs.Lemmas.Lvs.CompileExample
 /-!
 # C13 — ill-formed models are rejected; every query on an accepted model terminates
 
@@ -10,8 +12,10 @@ matcher `Ndn.Lvs.stepG`/`runG`/`matchIter` (`Checker._match`) over the binary mo
 Specification vocabulary (`NdnModel/Lvs/Sem.lean`): `Sane m` — the six rules of
 docs/src/lvs/binary-format.rst "Sanity Check" over the nodes reachable from the start node.
 
-The compiler is not modelled in Lean: the schema-level half of the property (static errors ⇒
-`SemanticError`; error-free schema ⇒ accepted model) is checked by the oracle of the harness only.
+The compiler is modelled too (`NdnModel/Lvs/{Ast,Compile}.lean`: `Ndn.Lvs.compile`, the passes of
+`compiler.py` as written, tied to the real `compile_lvs` on every run by comparing the node pools):
+the schema-level half of the property is proved for it as far as the theorems `compile_rejects_*`,
+`compile_sane`, `compile_accepted_iff` below say; see `compile_sane_partial` for what is left.
 -/
 namespace Ndn.C13
 open Ndn Ndn.Lvs
@@ -74,11 +78,91 @@ theorem sign_cycle_rejected (m : Model) (hs : Sane m) (C : List Nat) (hne : ∃ 
     sanityCheck m = .error .semanticError :=
   Ndn.Lvs.sign_cycle_rejected m ((sanity_iff_documented m).mpr hs) C hne hC
 
-/-- **compile_sane_partial.**  Full statement (not proved: the compiler passes are not modelled in Lean):
+/-! ### the compile-time half (over the compiler model `Ndn.Lvs.compile`) -/
+
+/-- **compile_rejects_bad_reference.** A name pattern that refers to a temporary rule (`#_x`) or to an
+    identifier no rule of the schema defines makes `compile` raise `SemanticError`. -/
+theorem compile_rejects_bad_reference (S : Schema) (r : SRule) (hr : r ∈ S.rules) (c : String)
+    (hc : Comp.ref c ∈ r.name) (h : isTempRule c = true ∨ ∀ r' ∈ S.rules, r'.id ≠ c) :
+    compile S = .error .semantic :=
+  compile_badRef S r hr c hc h
+
+/-- **compile_rejects_reference_cycle.** A non-empty set `C` of rule identifiers, each of which is referred to
+    in the name pattern of a definition of a member of `C` (cyclic rule references, in particular a rule
+    referring to itself), makes `compile` raise `SemanticError` ("Loop detected"). -/
+theorem compile_rejects_reference_cycle (S : Schema) (C : List String) (hne : C ≠ [])
+    (hC : ∀ c ∈ C, ∃ r ∈ S.rules, r.id ∈ C ∧ Comp.ref c ∈ r.name) :
+    compile S = .error .semantic :=
+  compile_refCycle S C hne hC
+
+/-- **compile_rejects_bad_constraint.** `BadTerm`: a constraint on a named pattern written in no name pattern
+    of the schema, or on a temporary pattern not written in the rule's own name pattern; or an option / a
+    user-function argument that is a temporary pattern or a pattern written in no name pattern of the schema.
+    Any such term makes `compile` raise `SemanticError`. -/
+theorem compile_rejects_bad_constraint (S : Schema) (r : SRule) (hr : r ∈ S.rules) (cs : List (Term String String))
+    (hcs : cs ∈ r.cons) (t : Term String String) (ht : t ∈ cs) (hbad : BadTerm S.rules r t) :
+    compile S = .error .semantic :=
+  compile_badTerm S r hr cs hcs t ht hbad
+
+/-- a signing cycle among reachable nodes of a model: a non-empty set of nodes each of which is listed as
+    signer by a reachable member of the set -/
+def SignCycle (m : Model) : Prop :=
+  ∃ C : List Nat, (∃ c, c ∈ C) ∧
+    ∀ c ∈ C, ∃ p ∈ C, Reach m p ∧ ∃ pnode, m.nodes[p]? = some pnode ∧ c ∈ pnode.signCons
+
+/-- **compile_structure_sane.** Whatever a well-formed AST (`Schema.WF`: what the grammar guarantees — literals
+    are encoded components, user functions have a name) compiles to obeys the documented sanity rules: the
+    structural part of the loader's check (version, `dfs`) succeeds; it never raises `LvsModelError`. -/
+theorem compile_structure_sane (S : Schema) (hwf : S.WF) (m : Model) (syms : List String)
+    (h : compile S = .ok (m, syms)) : Sane m ∧ structCheck m = true ∧ sanityCheck m ≠ .error .modelError := by
+  have hs := (compile_built S hwf m syms h).sane
+  refine ⟨hs, (sanity_iff_documented m).mpr hs, ?_⟩
+  rw [Ne, modelError_iff_not_sane]
+  exact fun hn => hn hs
+
+/-- **compile_accepted_iff.** The loader accepts the compiled model exactly when no reachable nodes sign each
+    other in a cycle; otherwise it raises `SemanticError`. -/
+theorem compile_accepted_iff (S : Schema) (hwf : S.WF) (m : Model) (syms : List String)
+    (h : compile S = .ok (m, syms)) :
+    (sanityCheck m = .ok () ↔ ¬ SignCycle m) ∧ (sanityCheck m = .error .semanticError ↔ SignCycle m) := by
+  have hb := compile_built S hwf m syms h
+  have hsc : structCheck m = true := (sanity_iff_documented m).mpr hb.sane
+  have hyes : SignCycle m → sanityCheck m = .error .semanticError := by
+    intro ⟨C, hne, hC⟩
+    exact Ndn.Lvs.sign_cycle_rejected m hsc C hne hC
+  have hno : ¬ SignCycle m → sanityCheck m = .ok () := by
+    intro hn
+    have := signOK_of_acyclic m hb.ids hb.signers hn
+    simp [sanityCheck, hsc, this]
+  constructor
+  · constructor
+    · intro hok hcy; rw [hyes hcy] at hok; simp at hok
+    · exact hno
+  · constructor
+    · intro herr
+      apply Classical.byContradiction
+      intro hn; rw [hno hn] at herr; simp at herr
+    · exact hyes
+
+/-- **compile_sane.** A well-formed schema that compiles, and whose compiled nodes do not sign each other in a
+    cycle, is accepted by the loader. -/
+theorem compile_sane (S : Schema) (hwf : S.WF) (m : Model) (syms : List String)
+    (h : compile S = .ok (m, syms)) (hac : ¬ SignCycle m) : sanityCheck m = .ok () :=
+  (compile_accepted_iff S hwf m syms h).1.mpr hac
+
+/-- **compile_sane_partial.**  Full statement:
     `WFSchema S → no name pattern of S is its own signer → sanityCheck (compile S) = ok`, and
     `¬ WFSchema S → compile S = error SemanticError`.
-    Proved part, for *any* model and so for whatever the compiler emits: the loader accepts it exactly
-    when it is sane and `top_order` finds no signing loop. -/
+    Proved about the compiler model (above): references to undefined / temporary rules, reference cycles and
+    bad constraint terms are refused with `SemanticError` (`compile_rejects_*`); every model the compiler
+    emits is structurally sane, and it is accepted iff its nodes do not sign each other in a cycle
+    (`compile_structure_sane`, `compile_accepted_iff`, `compile_sane`).
+    Not proved: that an undefined signer is refused (pass 5), that a schema without any static error does
+    compile (no error is raised by any pass), and the reading of the node-level `SignCycle` in terms of the
+    source rules (node merging can make a name pattern its own signer although the rule-level signing
+    graph is acyclic).  These rest on the correspondence run and the schema-level oracle.
+    Proved here, for *any* model: the loader accepts it exactly when it is sane and `top_order` finds no
+    signing loop. -/
 theorem compile_sane_partial (m : Model) : sanityCheck m = .ok () ↔ Sane m ∧ signOK m = true := by
   rw [← sanity_iff_documented]
   unfold sanityCheck
@@ -110,5 +194,36 @@ example : sanityCheck Example.signLoop = .error .semanticError := by
   simp only [sanityCheck, show structCheck Example.signLoop = true by decide,
     show signOK Example.signLoop = false by decide]; rfl
 example : EnvTotal Example.allFns := fun _ => ⟨_, rfl, fun _ _ => ⟨true, rfl⟩⟩
+
+/-! the compiler model: `#p: "d"/x <= #k`, `#k: "k"/x & {x: "a"|"b"}` compiles to `Example.model` -/
+example : compile Example.schema = .ok (Example.model, ["x"]) := Example.compile_schema
+example : Sane Example.model :=
+  (compile_structure_sane _ Example.schema_wf _ _ Example.compile_schema).1
+example : ¬ SignCycle Example.model :=
+  (compile_accepted_iff _ Example.schema_wf _ _ Example.compile_schema).1.mp (accepted_of _ (by decide) (by decide))
+example : sanityCheck Example.model = .ok () :=
+  compile_sane _ Example.schema_wf _ _ Example.compile_schema
+    ((compile_accepted_iff _ Example.schema_wf _ _ Example.compile_schema).1.mp (accepted_of _ (by decide) (by decide)))
+/-- `#p <= #k`, `#k <= #p` compiles, and the loader refuses the result: nodes 2 and 4 sign each other -/
+example : SignCycle Example.signLoop :=
+  (compile_accepted_iff _ Example.schemaLoop_wf _ _ Example.compile_schemaLoop).2.mp (by
+    simp only [sanityCheck, show structCheck Example.signLoop = true by decide,
+      show signOK Example.signLoop = false by decide]; rfl)
+/-- `#p: #nope/"d"` -/
+example : compile Example.schemaBadRef = .error .semantic :=
+  compile_rejects_bad_reference _ _ List.mem_cons_self "#nope" List.mem_cons_self (Or.inr (by decide))
+/-- `#p: "d"/#q`, `#q: #p/"k"` -/
+example : compile Example.schemaRefCycle = .error .semantic :=
+  compile_rejects_reference_cycle _ ["#p", "#q"] (by simp) (by decide)
+/-- `#p: "d"/x & {x: "a", y: "b"}`: `y` is written in no name pattern -/
+example : compile Example.schemaBadCons = .error .semantic :=
+  compile_rejects_bad_constraint _ _ List.mem_cons_self _ List.mem_cons_self
+    { pat := "y", opts := [.lit Example.cB] } (by simp)
+    (Or.inl ⟨by decide, by unfold NamedIn; decide⟩)
+/-- `#p: "d"/x & {x: _t}`: a temporary pattern used as constraint value -/
+example : compile Example.schemaTempOpt = .error .semantic :=
+  compile_rejects_bad_constraint _ _ List.mem_cons_self _ List.mem_cons_self
+    { pat := "x", opts := [.pat "_t"] } List.mem_cons_self
+    (Or.inr (Or.inr ⟨.pat "_t", List.mem_cons_self, "_t", List.mem_cons_self, Or.inl (by decide)⟩))
 
 end Ndn.C13
